@@ -92,6 +92,43 @@ func (d *driver) runSqrtCase(w emitter, k int, c *sqrtCase) {
 			d.sqrtEvent(w, k, "special-again", m[name])
 		}
 		d.pointEvent(w, k, "special-again", big.NewInt(0))
+	case "stored":
+		// values chosen by their STORED (Montgomery) words: every pattern of the four 64-bit limbs over {0, 1, random} (top limb kept
+		// below the modulus' top limb), i.e. elements like fp.Element{0,0,0,k} on which a limb-wise shortcut (zero test, comparison)
+		// decides differently from the value; each as a square-root input, its square, and - built from the ratio side - as the
+		// u = (a x^2 - 1)/(d x^2 - 1) of an x-coordinate handed to GetPointFromX
+		rinv := new(big.Int).ModInverse(new(big.Int).Lsh(one, 256), modP)
+		for pat := 0; pat < 81; pat++ {
+			wv := new(big.Int)
+			q := pat
+			for limb := 0; limb < 4; limb++ {
+				var l *big.Int
+				switch q % 3 {
+				case 0:
+					l = big.NewInt(0)
+				case 1:
+					l = big.NewInt(1)
+				default:
+					l = rnd.big(60)
+					l.Add(l, big.NewInt(2))
+				}
+				q /= 3
+				wv.Add(wv, new(big.Int).Lsh(l, uint(64*limb)))
+			}
+			v := new(big.Int).Mul(wv, rinv)
+			v.Mod(v, modP)
+			d.sqrtEvent(w, k, "stored", v)
+			sq := new(big.Int).Mul(v, v)
+			d.sqrtEvent(w, k, "stored-square", sq.Mod(sq, modP))
+			// x^2 = (u - 1)/(u d - a)
+			den := subm(mulm(v, curveD), curveA)
+			if den.Sign() != 0 {
+				x2 := mulm(subm(v, one), new(big.Int).ModInverse(den, modP))
+				if x := new(big.Int).ModSqrt(x2, modP); x != nil {
+					d.pointEvent(w, k, "stored-ratio", x)
+				}
+			}
+		}
 	case "random":
 		for i := 0; i < c.N; i++ {
 			v := rnd.big(300)
